@@ -86,6 +86,8 @@ type Session struct {
 	snRead  func(*snref.Pkt, []byte)
 	mqRead  func(*mqttref.Pkt)
 	Delay   func(dir string, p *snref.Pkt, n int) time.Duration
+	stalled bool
+	unstall chan struct{}
 }
 
 // NewSession creates the links and starts the real session handler.
@@ -106,7 +108,7 @@ func (w *World) NewSessionForClient(mqHandler func(s *Session, p *mqttref.Pkt)) 
 func (w *World) newSession(snHandler func(s *Session, p *snref.Pkt, raw []byte), mqHandler func(s *Session, p *mqttref.Pkt), externalClient bool) *Session {
 	w.mu.Lock()
 	id := len(w.sess)
-	s := &Session{W: w, ID: id, Done: make(chan struct{}), counts: map[string]int{}}
+	s := &Session{W: w, ID: id, Done: make(chan struct{}), counts: map[string]int{}, unstall: make(chan struct{})}
 	w.sess = append(w.sess, s)
 	w.mu.Unlock()
 	s.Ctx, s.Stop = context.WithCancel(w.Ctx)
@@ -193,6 +195,13 @@ func (w *World) newSession(snHandler func(s *Session, p *snref.Pkt, raw []byte),
 		var acc []byte
 		buf := make([]byte, 70000)
 		for {
+			s.mu.Lock()
+			stalled := s.stalled
+			s.mu.Unlock()
+			if stalled {
+				<-s.unstall // a broker that has stopped reading
+				return
+			}
 			n, err := s.MQ.B.Read(buf)
 			if err != nil {
 				return
@@ -246,6 +255,17 @@ func (s *Session) SNSendP(p *snref.Pkt) { s.SN.A.Write(p.Encode()) }
 // MQSend sends bytes from the broker to the gateway.
 func (s *Session) MQSend(b []byte) { s.MQ.B.Write(b) }
 
+// StallBroker makes the broker stop reading from now on; the link then holds at most capacity bytes, like
+// a TCP connection with full buffers: the gateway's writes block.
+func (s *Session) StallBroker(capacity int) {
+	s.MQ.SetCapacity(capacity)
+	s.mu.Lock()
+	s.stalled = true
+	s.mu.Unlock()
+	// wake the reader so that it notices
+	s.MQ.B.SetReadDeadline(time.Now())
+}
+
 // BrokerClose closes the broker's end of the MQTT connection.
 func (s *Session) BrokerClose() { s.MQ.B.Close() }
 
@@ -261,6 +281,13 @@ func (w *World) Finish() {
 	for _, s := range ss {
 		s.SN.A.Close()
 		s.MQ.B.Close()
+		s.mu.Lock()
+		select {
+		case <-s.unstall:
+		default:
+			close(s.unstall)
+		}
+		s.mu.Unlock()
 	}
 }
 
